@@ -58,7 +58,7 @@ theorem headStart_run (hx : XLaws env.ops inp Pend Good K Uerr) (hside : RelexSi
   rcases relex_step_fin (x := p.x) hside.relex hG hheadH with ⟨herr, _⟩ | ⟨l1, q, A', hsel, hqmem, hfc, hst, htag, hfd1, hls1, heq⟩
   · unfold WalkPost
     rw [herr]
-    exact hx.noU (by simp [U2err, U2])
+    exact hx.noU (by simp [U3err, U2err, U2, guardSite])
   · rw [heq]
     -- the table facts about the finishing arm
     have hsd : ∃ sd, env.tbl.state? G.sfin = some sd ∧ A' ∈ sd.arms := by
@@ -163,7 +163,7 @@ theorem parseLoop_X (hx : XLaws env.ops inp Pend Good K Uerr) (hside : RelexSide
   induction n generalizing p with
   | zero =>
     simp only [Parser.parseLoop]
-    exact ⟨fun e he => by simp only [Except.error.injEq] at he; subst he; exact hx.noU (by simp [U2err, U2]), fun k hk => by cases hk⟩
+    exact ⟨fun e he => by simp only [Except.error.injEq] at he; subst he; exact hx.noU (by simp [U3err, U2err, U2, guardSite]), fun k hk => by cases hk⟩
   | succ n ih =>
     cases hd : p.directive with
     | scan =>
@@ -206,7 +206,7 @@ theorem parseLoop_X (hx : XLaws env.ops inp Pend Good K Uerr) (hside : RelexSide
         right
         refine ⟨by simp [loadBookmark], ⟨⟨bm, ?_, rfl, rfl, rfl, rfl, rfl⟩, hg', hi'⟩⟩
         simpa [loadBookmark, Parser.store] using hdone
-      · exact ⟨fun e he => by simp only [Except.error.injEq] at he; subst he; exact hx.noU (by simp [U2err]), fun k hk => by cases hk⟩
+      · exact ⟨fun e he => by simp only [Except.error.injEq] at he; subst he; exact hx.noU (by simp [U3err, U2err, guardSite]), fun k hk => by cases hk⟩
       · rename_i e hne hres
         rw [hres] at h2
         exact ⟨fun e' he => by simp only [Except.error.injEq] at he; subst he; exact h2, fun k hk => by cases hk⟩
@@ -251,7 +251,7 @@ theorem parseLoop_X (hx : XLaws env.ops inp Pend Good K Uerr) (hside : RelexSide
         · simpa [Parser.store] using hg'
         · simpa [Parser.store] using hi'
         · simpa [Parser.store] using hnorm.2
-      · exact ⟨fun e he => by simp only [Except.error.injEq] at he; subst he; exact hx.noU (by simp [U2err]), fun k hk => by cases hk⟩
+      · exact ⟨fun e he => by simp only [Except.error.injEq] at he; subst he; exact hx.noU (by simp [U3err, U2err, guardSite]), fun k hk => by cases hk⟩
       · rename_i e hne hres
         rw [hres] at h2
         exact ⟨fun e' he => by simp only [Except.error.injEq] at he; subst he; exact h2, fun k hk => by cases hk⟩
